@@ -41,7 +41,9 @@ def programs(draw, max_len=7):
         elif k == "init":
             s["fn"] = draw(st.sampled_from(INITS)); s["shape"] = draw(st.sampled_from([[3, 4], [2, 3, 2]]))
         elif k == "layer":
-            s["kind"] = draw(st.sampled_from(["linear", "conv1d", "conv2d", "bn"])); s["i"] = draw(st.integers(1, 3)); s["o"] = draw(st.integers(1, 4))
+            s["kind"] = draw(st.sampled_from(["linear", "conv1d", "conv2d", "bn", "bn", "bn2d"])); s["i"] = draw(st.integers(1, 3)); s["o"] = draw(st.integers(1, 4))
+            if s["kind"].startswith("bn"):
+                s["affine"] = draw(st.booleans()); s["momentum"] = draw(st.sampled_from([0.1, None, 0.5]))
         elif k == "dropout":
             s["p"] = draw(st.sampled_from([0.2, 0.5, 0.8])); s["shape"] = draw(st.sampled_from([[6], [3, 4]]))
         elif k == "split":
@@ -50,7 +52,7 @@ def programs(draw, max_len=7):
                 s["val"] = draw(st.sampled_from([0.25, 0.5]))
         elif k == "train":
             s.update(model=draw(st.sampled_from(["mlp", "mlp", "cnn"])), act=draw(st.sampled_from(["tanh", "relu"])),
-                     dropout=draw(st.booleans()), bn=draw(st.booleans()), opt=draw(st.sampled_from(["sgd", "adam"])),
+                     dropout=draw(st.booleans()), bn=draw(st.booleans()), bn_affine=draw(st.booleans()), opt=draw(st.sampled_from(["sgd", "adam"])),
                      steps=draw(st.integers(2, 4)))
         else:
             s["x"] = [draw(st.integers(-8, 8)) / 4.0 for _ in range(6)]
@@ -86,7 +88,7 @@ def check_inprocess(c, rec):
         if first[0] != step_digests[0]:
             raise Violation("repetition_dependence", "fixed-data result differs between runs")
     draws = any(s["k"] not in ("fixed",) and not (s["k"] == "init" and s.get("fn") == "constant_") and s["k"] != "layer"
-                or (s["k"] == "layer" and s["kind"] != "bn") for s in c["prog"])
+                or (s["k"] == "layer" and not s["kind"].startswith("bn")) for s in c["prog"])
     if draws and c["seed"] != c["seed2"]:
         d4, _ = run_program(c["prog"], c["seed2"])
         if d4 == d1:
